@@ -113,7 +113,7 @@ func (r *rsaCtx) check(c map[string]any, key *rsa.PrivateKey) {
 		if !ok || (v == "true") != goValid {
 			r.mismatch(c, "an independent RFC 8017 verifier and VerifyPublicKey disagree on a signature", ans, fmt.Sprintf("valid=%v class=%s", goValid, o.class))
 		} else {
-			res.Traces++
+			r.h.trace()
 		}
 	case "sign15":
 		digest := unhx(str("digest"))
@@ -124,7 +124,7 @@ func (r *rsaCtx) check(c map[string]any, key *rsa.PrivateKey) {
 		if o.class != "ok" || s != hx(o.out) {
 			r.mismatch(c, "RSASSA-PKCS1-v1_5 is deterministic: the signature differs from an independent RFC 8017 implementation", ans, o.class+" sig="+hx(o.out))
 		} else {
-			res.Traces++
+			r.h.trace()
 		}
 	case "signpss":
 		digest, salt := unhx(str("digest")), unhx(str("salt"))
@@ -140,7 +140,7 @@ func (r *rsaCtx) check(c map[string]any, key *rsa.PrivateKey) {
 			c["sig"] = s
 			r.mismatch(c, "VerifyPublicKey rejects an RSASSA-PSS signature made by an independent RFC 8017 implementation", ans, fmt.Sprintf("valid=%v class=%s %s", o.valid, o.class, o.msg))
 		} else {
-			res.Traces++
+			r.h.trace()
 		}
 	case "dec":
 		ct, label := unhx(str("ct")), unhx(str("label"))
@@ -159,7 +159,7 @@ func (r *rsaCtx) check(c map[string]any, key *rsa.PrivateKey) {
 		if !same {
 			r.mismatch(c, "an independent RFC 8017 decryption and DecryptPrivateKey disagree on a ciphertext", ans, o.class+" pt="+hx(o.out))
 		} else {
-			res.Traces++
+			r.h.trace()
 		}
 	case "enc":
 		pt, label, rnd := unhx(str("pt")), unhx(str("label")), unhx(str("rand"))
@@ -179,7 +179,7 @@ func (r *rsaCtx) check(c map[string]any, key *rsa.PrivateKey) {
 			c["ct"] = ct
 			r.mismatch(c, "DecryptPrivateKey does not recover a message encrypted by an independent RFC 8017 implementation", ans, o.class+" pt="+hx(o.out)+" "+o.msg)
 		} else {
-			res.Traces++
+			r.h.trace()
 		}
 	default:
 		res.Note("rsa: unknown monitor " + mon)
@@ -220,7 +220,7 @@ func sigMutations(rng *lib.Rand, sig []byte, step int) map[string][]byte {
 	return m
 }
 
-func (h *H) rsaInterop() {
+func (h *H) rsaInterop(rng *lib.Rand) {
 	if h.f.Drv == "" {
 		h.res.Note("rsa interop: model driver unavailable, skipped")
 		return
@@ -241,7 +241,6 @@ func (h *H) rsaInterop() {
 			}
 		}
 	}
-	rng := h.rng.Fork()
 	for ki, key := range keys {
 		// the dense mutation sweeps only on the two 2048-bit keys: a private-key operation in the
 		// Lean implementation costs ≈12 ms at 2048 bits and ≈100 ms at 4096 bits
